@@ -1,6 +1,6 @@
 (* C13: soundness and completeness of the scan oracle of model/Scans.v against its declarative
    reading (scan_bounded), the date arithmetic of FormatFromDate, and what the bounds mean for the
-   rows a scan admits. *)
+   rows a scan keeps. *)
 From Coq Require Import List ZArith NArith String Ascii Bool Lia.
 From Qryn Require Import lib.Strs lib.CivilDate model.Sql model.Scans.
 Import ListNotations.
